@@ -651,6 +651,13 @@ func (c *Conn) process(argv []string) {
 	var blocked *blockedClient
 	if act.Reply != nil {
 		reply = *act.Reply
+		// a scripted error reply stands for a command rejected before execution (MOVED, ASK, TRYAGAIN, LOADING, ...):
+		// like Redis (rejectCommand -> flagTransaction) that flags an open transaction, so its EXEC answers EXECABORT
+		if (reply.T == '-' || reply.T == '!') && c.multi != nil {
+			if n := up(argv[0]); n != "EXEC" && n != "DISCARD" && n != "MULTI" {
+				c.multi.dirty = true
+			}
+		}
 	} else if act.Raw != nil && !act.ExecFirst {
 		hasReply = false
 	} else {
